@@ -302,9 +302,8 @@ def r6_r2_line(ctx, sym):
         for filename, offsets, want_off in (('student.py', {'student.py': 10}, 10), ('other.py', {'student.py': 10}, 0),
                                             ('student.py', {}, 0)):
             rec = symexec.Recorder()
-            submission = Obj('submission', line_offsets=offsets, instructor_file='on_run.py')
-            symexec.method(submission, 'get_files_lines', lambda: {'student.py': ['a', 'b', 'c', 'd', 'e', 'f', 'g', 'h']})
-            symexec.method(submission, 'get_lines', lambda: ['a', 'b', 'c', 'd', 'e', 'f', 'g', 'h'])
+            submission = symexec.model_submission(ctx, 'a\nb\nc\nd\ne\nf\ng\nh', main_file='student.py',
+                                                  line_offsets=offsets, instructor_file='on_run.py')
             report = Obj('report', submission=submission, format=Obj('format'))
             tb = Obj('traceback')
             symexec.method(tb, 'build_traceback', lambda: ['frame'])
